@@ -35,7 +35,8 @@ def main():
     meta = json.load(open(os.path.join(src, "meta.json")))
     pid = meta.get("property")
     # fixed paths so that cargo fingerprints in the per-tree target dirs are reused from one seed to the next
-    tmp = "/tmp/vseed"
+    slot = os.environ.get("VSEED_SLOT", "")
+    tmp = "/tmp/vseed" + slot
     if os.path.exists(tmp):
         for d in ("patched", "clean"):
             sh(["git", "-C", "/repo", "worktree", "remove", "--force", os.path.join(tmp, d)])
@@ -53,7 +54,7 @@ def main():
         if a.returncode != 0:
             print("PATCH DOES NOT APPLY", a.stderr)
             return 2
-        env = dict(os.environ, CARGO_NET_OFFLINE="true", CARGO_TARGET_DIR=os.path.join(VERIF, ".cache", "seed-target-patched"))
+        env = dict(os.environ, CARGO_NET_OFFLINE="true", CARGO_TARGET_DIR=os.path.join(VERIF, ".cache", "seed-target-patched" + slot))
         if not skip_tests:
             t = sh(["cargo", "test", "--workspace", "--no-fail-fast", "--offline"], cwd=wt, env=env)
             sh(["git", "-C", wt, "checkout", "Cargo.lock"])
@@ -67,10 +68,10 @@ def main():
                 print("REJECT: the existing suite fails with the patch")
                 return 3
         demo = os.path.join(os.path.abspath(src), "run_demo.sh")
-        denv = dict(os.environ, CARGO_NET_OFFLINE="true", CARGO_TARGET_DIR=os.path.join(VERIF, ".cache", "seed-target-patched"))
+        denv = dict(os.environ, CARGO_NET_OFFLINE="true", CARGO_TARGET_DIR=os.path.join(VERIF, ".cache", "seed-target-patched" + slot))
         dp = sh(["bash", demo, wt], env=denv, cwd=os.path.abspath(src))
         sh(["git", "-C", wt, "checkout", "Cargo.lock"])
-        denv["CARGO_TARGET_DIR"] = os.path.join(VERIF, ".cache", "seed-target-clean")
+        denv["CARGO_TARGET_DIR"] = os.path.join(VERIF, ".cache", "seed-target-clean" + slot)
         dc = sh(["bash", demo, clean], env=denv, cwd=os.path.abspath(src))
         sh(["git", "-C", clean, "checkout", "Cargo.lock"])
         out["demo"] = {"patched_exit": dp.returncode, "clean_exit": dc.returncode,
